@@ -6,7 +6,7 @@ EXTRA_BINS = ("dtail", "dcat")
 
 ID = "C18"
 PROP_FILE = "Props/C18.v"
-CONSTS = []
+CONSTS = ["default_connections_per_cpu"]
 RULE = ("generated comma lists / server files / plug-in module entry lists with duplicates, host:port forms, empty "
         "entries, CRLF, blank lines, 1..5000 entries and optional /regex/ filters; non-trivial = at least 2 distinct "
         "entries and (a duplicate or a filter that removes something); distinct by case content")
